@@ -42,14 +42,14 @@ def nonascii_argv(item):
     with a non-ASCII character handed to a constructor"""
     if item[0] == "ctor-native":
         return any(ord(c) > 127 for c in item[2])
-    return item[0] == "cli" and any(ord(c) > 127 for a in item[1] for c in a)
+    return item[0] in ("cli", "cli-process") and any(ord(c) > 127 for a in item[1] for c in a)
 
 
 def u180e_answer(item):
     """an answer containing U+180E: white space in the Unicode 5.2 tables of Python 2.7, not in those of 3.x"""
     if item[0] == "interactive":
         return any("\u180e" in a for a in item[3])
-    if item[0] == "cli":
+    if item[0] in ("cli", "cli-process"):
         return any("\u180e" in a for a in (item[2] or []))
     return False
 
@@ -271,6 +271,35 @@ def run(tier, t0):
     for ver in ("2", "3"):
         for _ in range(400 if tier == "quick" else 8000):
             corpus.append(("ctor-score-class", ["ctor", ver, c09._rand_class(rng, ver)]))
+    # rejected command-line vectors that mix characters every output stream can encode, characters only some can, and undecodable
+    # bytes: how the message is printed must not depend on the interpreter
+    bits = ("\u00e9", "\udcff", "\u6f22", "\U0001f600", "\udc80\udcfe", "x")
+    for flag in ("-2", "-3", "-4", None):
+        for i, a in enumerate(bits):
+            for b in bits[i + 1:]:
+                for pre in ("CVSS:3.1/AV:", "AV:N/", ""):
+                    corpus.append(("cli-mixed-encodability", ["cli", ([flag] if flag else []) + ["--vector=" + pre + a + b], None]))
+                    if pre and (i + len(corpus)) % 3 == 0:
+                        # ... and as a real child process of every interpreter (real standard streams)
+                        corpus.append(("cli-real-process", ["cli-process", ([flag] if flag else []) + ["--vector=" + pre + a + b], None]))
+    for j, (flag, vec) in enumerate((("-2", "AV:N/AC:L/Au:N/C:P/I:P/A:P"), ("-3", "CVSS:3.0/AV:N/AC:L/PR:N/UI:N/S:U/C:H/I:H/A:H/E:P"), (None, "CVSS:3.1/AV:N/AC:L/PR:N/UI:N/S:C/C:H/I:H/A:H"),
+                                     ("-4", "CVSS:4.0/AV:N/AC:L/AT:N/PR:N/UI:N/VC:H/VI:H/VA:H/SC:N/SI:N/SA:N"), ("-4", "CVSS:3.1/AV:N"), ("-2", ""))):
+        for extra in ([], ["-j"], ["-a", "-n", "-j"]):
+            corpus.append(("cli-real-process", ["cli-process", ([flag] if flag else []) + extra + ["--vector=" + vec], None]))
+    corpus.append(("cli-real-process", ["cli-process", ["-2", "-n"], ["n", "l", "n", "p", "p", "p"]]))
+    corpus.append(("cli-real-process", ["cli-process", ["-n"], ["n", "l", "n", "n", "u", "h"]]))        # early end of input
+    # answers made of the characters whose case mappings differ between upper(), lower() and casefold(), or between the Unicode
+    # tables of the interpreters (dotted / dotless i, long s, Kelvin and Angstrom signs, sharp s, ligatures ...): each question is
+    # answered with the character first and with a legal value next
+    from .. import spec as _spec
+    for ch in ("\u0130", "\u0131", "\u017f", "\u212a", "\u212b", "\u00df", "\u1e9e", "\ufb01", "\u01f0", "\u0149", "i\u0307", "\u03a3", "\u03c2"):
+        for version, allm in ((2, True), (3.1, True), (4.0, True), (3.0, False)):
+            V = _spec.VERS[interact.verkey(version)]
+            order = interact.probe_order(version, allm) or list(V.order if allm else V.mandatory)
+            answers = []
+            for m in order:
+                answers += [ch, list(V.table[m])[0]]
+            corpus.append(("interactive-case-mapping", ["interactive", version, allm, answers]))
     # witnesses of the listed known finding (non-ASCII answers are decoded differently on 2.7): replayed every run
     for it in WITNESSES:
         corpus.append(("interactive-nonascii", it))
